@@ -36,7 +36,7 @@ fn explore(slots: usize, values: usize, depth: usize, threads: usize, state_cap:
 
 pub fn run_c20(cx: &Ctx) -> i32 {
     // (slots, values, depth)
-    let configs: Vec<(usize, usize, usize)> = if cx.quick() { vec![(2, 2, 10), (3, 3, 7), (5, 1, 8)] } else { vec![(2, 2, 12), (3, 3, 9), (6, 1, 9)] };
+    let configs: Vec<(usize, usize, usize)> = if cx.quick() { vec![(2, 2, 10), (3, 3, 7), (5, 1, 8)] } else { vec![(2, 2, 11), (3, 3, 8), (6, 1, 9)] };
     let cap = 60_000_000usize;
     let mut t = Tally::new();
     let mut runs = Vec::new();
